@@ -373,7 +373,7 @@ GenCfg variant_of(Rng & r, const GenCfg & c0)
       else if (r.chance(0.5)) pick_window(r, *e, c);                       // another window (else: full range)
     } else if (d < 8) {
       std::vector<const DbdEntry *> alt;
-      for (auto & x : dbd_catalogue()) if (x.nuc == c.nuc && (x.level != c.level || x.mode != c.mode) && x.init_us < 3000) alt.push_back(&x);
+      for (auto & x : dbd_catalogue()) if (x.nuc == c.nuc && (x.level != c.level || x.mode != c.mode) && x.qng_calls == 0) alt.push_back(&x);
       if (!alt.empty()) { const DbdEntry * a = r.pick(alt); c.level = a->level; c.mode = a->mode; c.emin_keV = c.emax_keV = -1; }
     } else c.mdl = (c0.mdl == 0) ? (int)r.range(1, mdl_presets()) : 0;
   } else {
